@@ -42,3 +42,10 @@ package dag
 //@ // Meaning of SelfParent / IsSelfParent in terms of Seq and Parents (what BaseEvent implements);
 //@ // assumed of the application's event type where a contract says spsem(e).
 //@ spec spsem(e Event) bool = ((e.SelfParent() == nil) == (e.Seq() <= 1 || len(e.Parents()) == 0)) && forall(h hash.Event, e.IsSelfParent(h) == (e.SelfParent() != nil && e.Parents()[0] == h))
+//@
+//@ // the metric of a batch: its number of events and the sum of their sizes (64-bit)
+//@ spec esum(ee Events, n int) int = ite(n <= 0, 0, esum(ee, n-1) + ee[n-1].Size())
+//@ func (Events).Metric
+//@   requires len(ee) <= 4294967295 && forall(i, 0, len(ee), ee[i] != nil && ee[i].Size() >= 0)
+//@   ensures  result.Num == len(ee) && result.Size == esum(ee, len(ee)) % 18446744073709551616
+//@   loop 1 invariant 0 <= _k && _k <= len(ee) && metric.Num == len(ee) && metric.Size == esum(ee, _k) % 18446744073709551616
